@@ -186,7 +186,7 @@ fn conveniences() -> R {
     let direct = e.add_assertion(p.clone(), o.clone());
     let a_env = Envelope::new_assertion(p.clone(), o.clone());
     let same = |x: &Envelope, y: &Envelope, what: &str| -> R { if bytes(x) == bytes(y) { Ok(()) } else { rt::viol("convenience builder differs from the primitive operation", what.to_string()) } };
-    match choice(11) {
+    match choice(12) {
         0 => { op("add_assertion_if"); same(&e.add_assertion_if(true, p.clone(), o.clone()), &direct, "add_assertion_if(true)")?; same(&e.add_assertion_if(false, p.clone(), o.clone()), &e, "add_assertion_if(false)")?; }
         1 => { op("add_assertion_envelope_if"); same(&must!(e.add_assertion_envelope_if(true, a_env.clone()), "refused"), &direct, "add_assertion_envelope_if(true)")?; same(&must!(e.add_assertion_envelope_if(false, a_env.clone()), "refused"), &e, "add_assertion_envelope_if(false)")?;
                ensure!(e.add_assertion_envelope_if(false, build(&l(9))).is_ok(), "add_assertion_envelope_if(false, ..) must not look at its argument", ""); ensure!(e.add_assertion_envelope_if(true, build(&l(9))).is_err(), "a non-assertion was accepted as assertion", ""); }
@@ -228,6 +228,21 @@ fn conveniences() -> R {
             let got = e.add_signature_opt(&sk, None, Some(md));
             if let Err(m) = well_formed(&got) { return rt::viol("signed envelope not canonical", format!("metadata order {:?}: {}", sq, m)); }
             same(&got, &want, &format!("signature metadata given in order {:?}", sq))?;
+        }
+        10 => {
+            // extension adders are the plain add of the assertion they document: in any order, with repeats
+            op("add_salt_instance / add_type / add_attachment against add_assertion");
+            let (s1, s2) = (bc_components::Salt::from_data(vec![1u8; 9]), bc_components::Salt::from_data(vec![2u8; 12]));
+            let want = e.add_assertion(known_values::SALT, s1.clone()).add_assertion(known_values::SALT, s2.clone());
+            same(&e.add_salt_instance(s1.clone()).add_salt_instance(s2.clone()), &want, "add_salt_instance twice")?;
+            same(&e.add_salt_instance(s2.clone()).add_salt_instance(s1.clone()).add_salt_instance(s2.clone()), &want, "add_salt_instance in the other order, one repeated")?;
+            same(&e.add_salt_instance(s1.clone()).add_salt_instance(s2.clone()).remove_assertion(Envelope::new_assertion(known_values::SALT, s2.clone())), &e.add_assertion(known_values::SALT, s1.clone()), "add_salt_instance then remove")?;
+            let (t1, t2) = (leaf_text(69), leaf_text(70));
+            same(&e.add_type(t1.clone()).add_type(t2.clone()).add_type(t1.clone()), &e.add_assertion(known_values::IS_A, t2.clone()).add_assertion(known_values::IS_A, t1.clone()), "add_type")?;
+            let pay = Envelope::new(leaf_text(71));
+            let wa = must!(must!(e.add_assertion_envelope(Envelope::new_attachment(pay.clone(), "v", Some("f"))), "refused").add_assertion_envelope(Envelope::new_attachment(pay.clone(), "v", None::<&str>)), "refused");
+            same(&e.add_attachment(pay.clone(), "v", Some("f")).add_attachment(pay.clone(), "v", None::<&str>), &wa, "add_attachment (format, then none)")?;
+            same(&e.add_attachment(pay.clone(), "v", None::<&str>).add_attachment(pay.clone(), "v", Some("f")), &wa, "add_attachment (none, then format)")?;
         }
         _ => { op("From<&Envelope> / to_envelope"); same(&Envelope::from(&e), &e, "From<&Envelope>")?; same(&Envelope::new(e.clone()), &e, "Envelope::new(envelope)")?; same(&e.to_envelope(), &e, "to_envelope")?; }
     }
@@ -317,7 +332,7 @@ pub fn prop() -> Prop {
                 bounds: "subject in 7 cases (leaf, known value, wrapped leaf, assertion, wrapped node, elided, compressed) x 1..4 assertions (quick; 1..5 thorough), each of 5 (quick) / 7 (thorough) kinds when <=3 assertions (plain, known-value predicate, decorated, elided, the same fact decorated differently; thorough adds node object, compressed), plain beyond x every insertion permutation x one repetition at every place x every digest order; bulk add, add/remove round trips, wrap/unwrap, replace_subject",
                 api: &["Envelope::new", "new_assertion", "add_assertion_envelope", "add_assertion_envelopes", "remove_assertion", "replace_subject", "wrap_envelope", "unwrap_envelope", "elide", "compress", "tagged_cbor", "digest", "is_identical_to"] },
             Scenario { name: "conveniences", f: conveniences, thorough_only: false,
-                bounds: "5 receivers x 11 groups of convenience builders (encrypt / decrypt against wrap + encrypt_subject / decrypt_subject + unwrap, signature metadata given with repeats and in another order (Ed25519), add_assertion_if, add_assertion_envelope_if, add_optional_assertion, add_nonempty_string_assertion, add_optional_assertion_envelope(_salted), new_or_null / new_or_none, true / false / null, add_assertions(_salted false), From<&Envelope> / to_envelope) against the primitive operation x every digest order",
+                bounds: "5 receivers x 12 groups of convenience builders (add_salt_instance / add_type / add_attachment against the plain add of the assertion they document (two of each, both orders, a repeat, a removal), encrypt / decrypt against wrap + encrypt_subject / decrypt_subject + unwrap, signature metadata given with repeats and in another order (Ed25519), add_assertion_if, add_assertion_envelope_if, add_optional_assertion, add_nonempty_string_assertion, add_optional_assertion_envelope(_salted), new_or_null / new_or_none, true / false / null, add_assertions(_salted false), From<&Envelope> / to_envelope) against the primitive operation x every digest order",
                 api: &["add_assertion_if", "add_assertion_envelope_if", "add_optional_assertion", "add_nonempty_string_assertion", "add_optional_assertion_envelope", "add_optional_assertion_envelope_salted", "new_or_null", "new_or_none", "true", "false", "null", "is_true", "is_false", "is_null", "add_assertions_salted"] },
             Scenario { name: "crafted_digests", f: crafted_digests, thorough_only: false,
                 bounds: "2..4 assertion elements, all but one elided with sender-chosen digests that agree in the first 31 (one: first 8) bytes, every insertion permutation x every digest order",
